@@ -398,7 +398,7 @@ func init() {
 		// "re-pointed and removed": the read-modify-write of a bucket's list is
 		// atomic and never edits published bytes; a wrong hit is rejected by the
 		// store's full-key comparison
-		r.support([]string{"atomic-rmw", "published-bytes-immutable", "pool-values-fresh", "keycheck", "pool-order", "lookup-both-pools", "pool-flush-complete", "translate-all", "location-after-rollover", "pos-width", "layout", "list-alias", "pool-readers", "slice-guard", "buckets-bounds", "errors-not-dropped", "bucket-writers", "match-last", "fncb-summary"})
+		r.support([]string{"atomic-rmw", "published-bytes-immutable", "pool-values-fresh", "keycheck", "pool-order", "lookup-both-pools", "pool-flush-complete", "translate-all", "location-after-rollover", "pos-width", "layout", "list-alias", "pool-readers", "slice-guard", "buckets-bounds", "errors-not-dropped", "bucket-writers", "match-last", "fncb-summary", "flush-writes", "disk-read-fresh"})
 	},
 		"Decides two structural clauses of the record-list property, not resolution of every key for every key set and order (runtime byte strings; exhaustive enumeration would run the code): (splice) Index.Update/Remove replace exactly the byte range [r.Pos, r.NextPos()) of the record found for the addressed key, by one entry carrying the record's own stored prefix and the new location (Update) or by nothing (Remove), and Index.Put replaces either nothing at the insertion position or exactly [prevRecord.Pos, pos); (trim-neighbours) in the non-prefix branch the new entry's stored prefix ends at 1+min(max(first non-common byte with the previous entry, with the next entry), len-1), each neighbour being ignored only when it does not exist, with max/min verified to return the larger/smaller argument; entry writer/reader offsets agree. Not covered: the prefix-branch re-trimming, lookup rule, ordering of entries.")
 }
